@@ -1,6 +1,7 @@
 package main
 
 import (
+	"fmt"
 	"strings"
 
 	"golang.org/x/tools/go/ssa"
@@ -14,6 +15,7 @@ func init() {
 func checkC17(r *Run) {
 	r.Explain = "C17 (three structural clauses): (R1) no entropy or clock source is reachable (VTA) from the address-derivation entry points of the four wallet types: derivation depends on wallet state only; (R2) entry consistency at every place an entry is built: the address is computed from the same public key value that is stored, the public key is derived from the stored secret key (deterministic/collection) or from the chain public key at the entry's child number (bip44/xpub), and the bip44 secret is derived at (chain index, child number) — the same coordinates as the public key — at every call site of the derivation helper (sibling agreement); (R3) the deterministic wallet chains its seed: the first batch starts from the wallet seed, later batches from the stored last seed, and the new last seed is stored before the entries are appended."
 	r.NotDec = "batch-split and reload invariance as value properties across call sequences; correctness of the key derivation primitives (C14/C16)"
+	ruleRecoverWalletOptions(r, "C17-R5")
 	// R1
 	entries := []string{
 		"wallet/deterministic.Wallet.GenerateAddresses", "wallet/deterministic.Wallet.ScanAddresses",
@@ -184,6 +186,17 @@ func ruleBip44SecretCoordinates(r *Run, rule string) {
 func checkC18(r *Run) {
 	r.Explain = "C18: (R1) decryption robustness: every slice/index on the decoded input of both Decrypt implementations is in bounds, no length arithmetic wraps, and the unauthenticated metadata handed to the KDF / AEAD is validated first (key length, nonce length, r, p; N bounded above); (R2) the three Lock implementations agree on the sequence pack secrets -> serialize -> encrypt -> mark encrypted -> erase clone -> erase wallet -> copy, succeed only after serialisation and encryption succeeded, and each Erase clears every secret its packSecrets exports (eraser covers packer); Unlock succeeds only after decrypt, deserialize and unpack succeeded."
 	r.NotDec = "that ciphertext hides the secrets; wrong-password rejection (AEAD/checksum semantics); exact restoration as a value property"
+	// Lock and Unlock work on clones: the copy helpers of the wallet packages produce one distinct object per
+	// element, never several pointers to one loop-carried variable
+	nl, aliased := loopAliasedAddrs(r.P, "wallet.", "wallet/")
+	r.Units["wallet loops inspected for aliased element pointers"] = nl
+	for _, in := range aliased {
+		r.Check("C18-R6", FnName(in.Parent())+": the address stored in the loop is a fresh object per iteration", r.P.Pos(in.Pos()), false, "the address of a variable declared outside the loop is stored in every iteration: all stored pointers alias the last element (the clone of a multi-element wallet loses the others)")
+	}
+	if nl < 40 {
+		r.Fail("C18-R6", "wallet loops", "", fmt.Sprintf("anchor-unresolved: %d loops found in the wallet packages, hand-confirmed minimum is 40", nl))
+	}
+	r.Pass("C18-R6", "no wallet copy helper stores the address of a loop-carried variable", "", fmt.Sprintf("%d loops", nl))
 	boundObligations(r, "C18-R1", "cipher/encrypt.ScryptChacha20poly1305.Decrypt", "cipher/encrypt.Sha256Xor.Decrypt")
 	arithObligations(r, "C18-R1", "cipher/encrypt.ScryptChacha20poly1305.Decrypt")
 	const sd = "cipher/encrypt.ScryptChacha20poly1305.Decrypt"
